@@ -187,6 +187,8 @@ impl RefState {
             CScale(k) => ops::scale(&a[0], *k),
             CBAdd => ops::add(&a[0], &a[1])?,
             CBMul => ops::mul(&a[0], &a[1])?,
+            CostMse => ops::mse(&a[0], &a[1])?,
+            CostCe => ops::cross_entropy(&a[0], &a[1])?,
             CFused3 => {
                 same(&a[0], &a[1])?;
                 same(&a[0], &a[2])?;
